@@ -1,7 +1,7 @@
 (* C12 - AMEn solve: the residual-driven rank search and the rank clamp.  Convergence of the sweeps is NOT a theorem (partial).
    Only theorem statements closed by `exact`, each followed by Print Assumptions. *)
 From Coq Require Import List Arith.
-From TT Require Import RingSig SumN Mat Core Skel SkelP FrameP Reduce Local LocalP.
+From TT Require Import RingSig SumN Mat Core Skel SkelP FrameP Reduce MatOps Local LocalP StationaryP.
 (* for r in range(n-1,0,-1): if res(r) > bound: break;  r += 1  -  with ok r := (res(r) <= bound) as oracle:
    the returned rank lies in 1..n, every candidate rank from it up to n-1 has a residual within the bound, and the rank just
    below it does not (unless the search reached the bottom) *)
@@ -62,6 +62,54 @@ Theorem C12_local_mat_dense (pre post : tt R) (Apre Apost : ttm R) (ck : core4 R
 Proof. exact (local_mat_dense pre post Apre Apost ck ra rb l0 m0 L0 r0' n0 R0). Qed.
 End LocalProblem.
 
+(* ---- consistency of the local systems (Proofs/StationaryP.v).  (4) The local operator built from the interfaces of two DIFFERENT trains is the
+   Petrov-Galerkin projection (the enrichment step projects on the frame of the residual train z); (5) the local product applied to a core is the
+   projection of the DENSE product A y on the frame; (6) the local right-hand side is the projection of b on the frame; (7) hence an exact
+   solution is STATIONARY: if A x = b entry by entry, the k-th core of x satisfies the k-th local system exactly, for every k, order, mode sizes
+   and rank profile; (8) the hypotheses are met by every well-formed pair (A, x) with b := A x as TT product. ---- *)
+Section Stationary.
+Context {R : Type} {RO : RingOps R} {RL : RingLaws R}.
+Theorem C12_local_mat_galerkin2 (xpre xpost ypre ypost : tt R) (Apre Apost : ttm R) (ck : core4 R) ra rb ra' rb' l0 m0 L0 r0' n0 R0 :
+  length Apre = length xpre -> length ypre = length xpre -> length Apost = length xpost -> length ypost = length xpost ->
+  l0 < ra -> r0' < ra' -> L0 < rb -> R0 < rb' -> m0 < mm ck -> n0 < nm ck ->
+  chained rb xpost -> chained4 (q1 ck) Apost -> chained rb' ypost ->
+  bilinear_form (xpre ++ unit3 ra (mm ck) rb l0 m0 L0 :: xpost) (Apre ++ ck :: Apost) (ypre ++ unit3 ra' (nm ck) rb' r0' n0 R0 :: ypost)
+  = local_mat (phiF xpre Apre ypre ones3) ck (phiB xpost Apost ypost) l0 m0 L0 r0' n0 R0.
+Proof. exact (local_mat_galerkin2 xpre xpost ypre ypost Apre Apost ck ra rb ra' rb' l0 m0 L0 r0' n0 R0). Qed.
+Theorem C12_local_product_galerkin (xpre xpost ypre ypost : tt R) (Apre Apost : ttm R) (ck : core4 R) (g : core3 R) ra rb l m L :
+  length Apre = length xpre -> length ypre = length xpre -> length Apost = length xpost -> length ypost = length xpost ->
+  l < ra -> L < rb -> m < mm ck -> nn g = nm ck ->
+  wf (xpre ++ unit3 ra (mm ck) rb l m L :: xpost) -> wf4 (Apre ++ ck :: Apost) -> wf (ypre ++ g :: ypost) ->
+  e3 (local_product (phiF xpre Apre ypre ones3) ck (phiB xpost Apost ypost) g) l m L
+  = sum_idx (shapeM (Apre ++ ck :: Apost)) (fun is_ => sum_idx (shapeN (Apre ++ ck :: Apost)) (fun js =>
+      rmul (rmul (rconj (entry (xpre ++ unit3 ra (mm ck) rb l m L :: xpost) is_)) (entry4 (Apre ++ ck :: Apost) is_ js)) (entry (ypre ++ g :: ypost) js))).
+Proof. exact (local_product_galerkin xpre xpost ypre ypost Apre Apost ck g ra rb l m L). Qed.
+Theorem C12_local_rhs_galerkin (xpre xpost bpre bpost : tt R) (bk : core3 R) ra rb r m R0 :
+  length bpre = length xpre -> length bpost = length xpost -> r < ra -> R0 < rb -> m < nn bk ->
+  wf (xpre ++ unit3 ra (nn bk) rb r m R0 :: xpost) -> wf (bpre ++ bk :: bpost) ->
+  e3 (local_rhs (phibF bpre xpre ones2) bk (phibB bpost xpost) ra rb) r m R0
+  = sum_idx (shape (bpre ++ bk :: bpost)) (fun is_ =>
+      rmul (rconj (entry (xpre ++ unit3 ra (nn bk) rb r m R0 :: xpost) is_)) (entry (bpre ++ bk :: bpost) is_)).
+Proof. exact (local_rhs_galerkin xpre xpost bpre bpost bk ra rb r m R0). Qed.
+Theorem C12_exact_solution_stationary (pre post bpre bpost : tt R) (Apre Apost : ttm R) (ck : core4 R) (g bk : core3 R) l m L :
+  length Apre = length pre -> length bpre = length pre -> length Apost = length post -> length bpost = length post ->
+  l < r0 g -> L < r1 g -> m < mm ck -> nn g = nm ck -> nn bk = mm ck ->
+  shape (bpre ++ bk :: bpost) = shapeM (Apre ++ ck :: Apost) ->
+  wf (pre ++ g :: post) -> wf4 (Apre ++ ck :: Apost) -> wf (bpre ++ bk :: bpost) ->
+  (forall is_, length is_ = length (shapeM (Apre ++ ck :: Apost)) -> Forall2 lt is_ (shapeM (Apre ++ ck :: Apost)) ->
+     sum_idx (shapeN (Apre ++ ck :: Apost)) (fun js => rmul (entry4 (Apre ++ ck :: Apost) is_ js) (entry (pre ++ g :: post) js)) = entry (bpre ++ bk :: bpost) is_) ->
+  e3 (local_product (phiF pre Apre pre ones3) ck (phiB post Apost post) g) l m L
+  = e3 (local_rhs (phibF bpre pre ones2) bk (phibB bpost post) (r0 g) (r1 g)) l m L.
+Proof. exact (exact_solution_stationary pre post bpre bpost Apre Apost ck g bk l m L). Qed.
+Theorem C12_product_solution_stationary (pre post : tt R) (Apre Apost : ttm R) (ck : core4 R) (g : core3 R) l m L :
+  length Apre = length pre -> length Apost = length post ->
+  l < r0 g -> L < r1 g -> m < mm ck -> nn g = nm ck ->
+  wf (pre ++ g :: post) -> wf4 (Apre ++ ck :: Apost) ->
+  e3 (local_product (phiF pre Apre pre ones3) ck (phiB post Apost post) g) l m L
+  = e3 (local_rhs (phibF (matvec Apre pre) pre ones2) (matvec_core ck g) (phibB (matvec Apost post) post) (r0 g) (r1 g)) l m L.
+Proof. exact (product_solution_stationary pre post Apre Apost ck g l m L). Qed.
+End Stationary.
+
 Print Assumptions C12_rank_search_spec.
 Print Assumptions C12_clamp_rank_le.
 Print Assumptions C12_entry_frame.
@@ -71,3 +119,8 @@ Print Assumptions C12_entry_setc_scale.
 Print Assumptions C12_phi_fwd_bck_dual.
 Print Assumptions C12_local_mat_galerkin.
 Print Assumptions C12_local_mat_dense.
+Print Assumptions C12_local_mat_galerkin2.
+Print Assumptions C12_local_product_galerkin.
+Print Assumptions C12_local_rhs_galerkin.
+Print Assumptions C12_exact_solution_stationary.
+Print Assumptions C12_product_solution_stationary.
